@@ -466,6 +466,14 @@ def block(ctx: Ctx, stmts, ret_wrap, ind="  ") -> str:
                     ctx.types[t.id] = ty
                 vals.append(as_val(ctx, x) if ty == "Val" else expr(ctx, x, ty))
             val = "(" + ", ".join(vals) + ")"
+            tnames = {t.id for t in tgt.elts}
+            rhs_names = {n.id for x in s.value.elts for n in ast.walk(x) if isinstance(n, ast.Name)}
+            if not (tnames & rhs_names):
+                # independent right-hand sides: plain sequential lets
+                out = ""
+                for t, v in zip(tgt.elts, vals):
+                    out += f"let {t.id} := {v}\n{ind}"
+                return out + block(ctx, rest, ret_wrap, ind)
         else:
             if not isinstance(tgt, ast.Name):
                 raise Untranslatable(f"assignment target {seg(ctx, tgt)}")
@@ -530,20 +538,45 @@ def block(ctx: Ctx, stmts, ret_wrap, ind="  ") -> str:
         vs = assigned(s.body + s.orelse)
         if not vs:
             return block(ctx, rest, ret_wrap, ind)
-        tup = vs[0] if len(vs) == 1 else "(" + ", ".join(vs) + ")"
-
-        def yield_block(st):
+        def yield_block(st, what):
             marker = ast.Return(value=ast.Name(id="__yield__", ctx=ast.Load()))
-            return block(ctx, list(st) + [marker], lambda _: tup, ind + "  ") if st else tup
+            saved = dict(ctx.types)
+            try:
+                return block(ctx, list(st) + [marker], lambda _: what, ind + "  ") if st else what
+            finally:
+                newt = dict(ctx.types)
+                ctx.types.clear()
+                ctx.types.update(saved)
+                for k, v in newt.items():
+                    ctx.types.setdefault(k, v)
 
-        return (
-            f"let {tup} := (if {c} then\n{ind}  "
-            + yield_block(s.body)
-            + f"\n{ind}else\n{ind}  "
-            + yield_block(s.orelse)
-            + f")\n{ind}"
-            + block(ctx, rest, ret_wrap, ind)
-        )
+        if len(vs) == 1:
+            tup = vs[0]
+            return (
+                f"let {tup} := (if {c} then\n{ind}  "
+                + yield_block(s.body, tup)
+                + f"\n{ind}else\n{ind}  "
+                + yield_block(s.orelse, tup)
+                + f")\n{ind}"
+                + block(ctx, rest, ret_wrap, ind)
+            )
+        # several joined variables: one scalar `if` per variable (the whole branch is replayed for
+        # each, reading the pre-`if` values), then simultaneous rebinding -- keeps the definition in
+        # plain if-then-else form, which `grind`/`split` handle well (no tuple projections).
+        ctx.join_counter = getattr(ctx, "join_counter", 0) + 1
+        k = ctx.join_counter
+        out = f"let c_{k} : Bool := {c}\n{ind}"
+        for v in vs:
+            out += (
+                f"let {v}_j{k} := (if c_{k} then\n{ind}  "
+                + yield_block(s.body, v)
+                + f"\n{ind}else\n{ind}  "
+                + yield_block(s.orelse, v)
+                + f")\n{ind}"
+            )
+        for v in vs:
+            out += f"let {v} := {v}_j{k}\n{ind}"
+        return out + block(ctx, rest, ret_wrap, ind)
     raise Untranslatable(f"stmt {type(s).__name__}: {seg(ctx, s)[:70]}")
 
 
